@@ -10,6 +10,9 @@ def build_registry() -> Registry:
     from . import _common
 
     _common.declare(reg)
+    from . import _classes
+
+    _classes.declare(reg)
     for m in sorted(pkgutil.iter_modules(__path__), key=lambda m: m.name):
         if m.name.startswith("_"):
             continue
